@@ -20,9 +20,12 @@ SjisMsgs ==
 \* (U+FEFF, U+FFFE, units whose bytes are EF BB BF ..), an astral character (surrogate pair), all lengths modulo 4
 UniMsgs ==
   { <<>>, <<97>>, <<256>>, <<97, 98>>, <<12354, 97, 98>>, <<97, 98, 99, 100>>,
-    <<65279>>, <<65279, 97>>, <<65534, 97, 98, 99>>, <<48111, 16831>>, <<55357, 56832>>, <<97, 55357, 56832>>, <<10, 92>> }
+    <<65279>>, <<65279, 97>>, <<65534, 97, 98, 99>>, <<48111, 16831>>, <<55357, 56832>>, <<97, 55357, 56832>>, <<10, 92>>,
+    \* code points a decoder may use as error / sentinel values: U+FFFD, U+FFFF, U+FFFC, U+0001, U+007F
+    <<65533>>, <<97, 65533, 98>>, <<65535, 65532>>, <<1, 127>> }
 QuickSjis == { <<>>, <<65>>, <<65, 66>>, <<131, 92>>, <<65, 66, 67>>, <<149, 92, 65, 66>>, <<65, 66, 67, 68, 69>> }
-QuickUni == { <<>>, <<97>>, <<256, 98>>, <<12354, 97, 98>>, <<65279, 97>>, <<65534, 97, 98, 99>>, <<48111, 16831>>, <<55357, 56832>> }
+QuickUni == { <<>>, <<97>>, <<256, 98>>, <<12354, 97, 98>>, <<65279, 97>>, <<65534, 97, 98, 99>>, <<48111, 16831>>, <<55357, 56832>>,
+              <<97, 65533>>, <<65535, 1>> }
 Msgs(fmt) == IF fmt = "unicode" THEN (IF Quick THEN QuickUni ELSE UniMsgs) ELSE (IF Quick THEN QuickSjis ELSE SjisMsgs)
 
 VARIABLES v, fmt, e, started
